@@ -375,7 +375,25 @@ func runProviderHistory(t testing.TB, ops []string) string {
 	e.Subscribe(flush.pid)
 	incarnations := 0
 	var cur *SelfManaged
-	prod := NewSelfManagedProvider(NewSelfManagedConfig())(c)
+	mkProvider := NewSelfManagedProvider(NewSelfManagedConfig()) // ONE provider value, used for two clusters of this process
+	prod := mkProvider(c)
+	// a second, idle cluster ("Q") built from the same provider value: its provider never receives anything, so its member
+	// list must stay exactly [Q] whatever happens to cluster A
+	e2, err := actor.NewEngine(actor.NewEngineConfig().WithRemote(&vRemoter{addr: "hQ:1"}))
+	if err != nil {
+		t.Fatal(err)
+	}
+	c2 := &Cluster{config: NewConfig().WithID("Q"), engine: e2}
+	c2.config.engine = e2
+	c2.agentPID = actor.NewPID(e2.Address(), "cluster/Q")
+	e2.SpawnProc(&vAgentRec{pid: c2.agentPID})
+	var other *SelfManaged
+	prod2 := mkProvider(c2)
+	pid2 := e2.Spawn(func() actor.Receiver {
+		s := prod2().(*SelfManaged)
+		other = s
+		return vWrap{s: s, c: c2}
+	}, "provider", actor.WithID("Q"), actor.WithRestartDelay(0), actor.WithMaxRestarts(5))
 	pid := e.Spawn(func() actor.Receiver {
 		incarnations++
 		s := prod().(*SelfManaged)
@@ -460,6 +478,12 @@ func runProviderHistory(t testing.TB, ops []string) string {
 		obs = append(obs, "members:"+vMemberIDs(cur.members.Slice()), "inc:"+strconv.Itoa(incarnations))
 		out = append(out, strings.Join(obs, ","))
 	}
+	if other != nil && len(out) > 0 {
+		if ids := vMemberIDs(other.members.Slice()); ids != "Q" {
+			out[len(out)-1] += ",OTHER-CLUSTER-OF-THIS-PROCESS-NOW-HAS-MEMBERS:" + ids
+		}
+	}
+	<-e2.Poison(pid2).Done()
 	<-e.Poison(pid).Done()
 	return strings.Join(out, ";")
 }
